@@ -17,7 +17,7 @@ CONSTRAINT EmitAll
 CHECK_DEADLOCK FALSE
 """
 TRACE_CFG = """SPECIFICATION TraceSpec
-CONSTANTS MaxNodes = 0 Aliasing = FALSE MaxBad = 4000
+CONSTANTS MaxNodes = 0 Aliasing = FALSE MaxBad = 20000
 CHECK_DEADLOCK FALSE
 POSTCONDITION Post
 """
@@ -108,6 +108,10 @@ def main(ctx):
     ctx.design("Convert", "Convert_small.cfg" if ctx.quick else "Convert_mid.cfg", workers=4 if ctx.quick else 8,
                coverage=not ctx.quick, heap="6g", timeout=1500)
     ctx.design("Convert", "Convert_alias.cfg", expect_violation="NoInterference", workers=4, heap="4g")
+    # ShallowCopy is disabled by construction in the main configuration (Aliasing = FALSE); it is exercised by
+    # Convert_alias.cfg, whose NoInterference violation was just required
+    ctx.cov["coverage_zero_actions"] = [x for x in ctx.cov["coverage_zero_actions"] if x != "Convert!ShallowCopy"]
+    ctx.cov["coverage_note"] = "Convert!ShallowCopy only fires in Convert_alias.cfg (required NoInterference violation)"
     # (b) TLC-generated behaviours Build; op; Mutate; Observe (+ a writer case for every generated tree)
     cases = tlc_cases(ctx, 3 if ctx.quick else 4)
     ctx.cov["model_cases"] = len(cases)
@@ -123,7 +127,14 @@ def main(ctx):
         ctx.add(r["api"], r["kind"], r["locus"], r["witness"], case=r["case"], detail=r.get("detail"))
     for c in cases[7::max(1, len(cases) // 5)]:
         ctx.sample({"op": c.get("op", c["ev"]), "tree": show(c["tree"]), "mutations": len(c.get("muts", []))})
-    ctx.cov["distinct_nontrivial"] = len(cases) + 3 * nrand
+    # measured: distinct case lines whose tree/text is more than a bare null
+    seen = set()
+    with open(cp) as f:
+        for line in f:
+            c = json.loads(line)
+            if c.get("text", "") not in ("", "null") or c.get("tree", {"t": "null"})["t"] != "null":
+                seen.add(line)
+    ctx.cov["distinct_nontrivial"] = len(seen)
     ctx.cov["rule"] = ("TLC enumerates input trees (depth <= 3, grown node by node: nested empty containers, nil members, the first "
                        "child ranging over every leaf kind and Go integer width, float32, time, big number) x 12 operations "
                        "(6 copying, 6 in-place incl. the four Generify|GenAlter + Simplify|Alter chains) and, for the copying ones, "
@@ -132,7 +143,7 @@ def main(ctx):
                        "and after; TLC replays Build/Copy|InPlace/Mutate of Convert.tla and judges Preserve, InputKept, "
                        "NoInterference. Plus seeded random trees (boundary integers, float32, nanosecond times, big numbers), "
                        "writer cross-checks on every subtree (oj.JSON, sen.String, pretty.JSON; simple vs gen) and parser "
-                       "cross-checks on random JSON texts. distinct_nontrivial = number of distinct cases.")
+                       "cross-checks on random JSON texts. distinct_nontrivial = number of distinct cases (operation x tree x experiments, writer trees, texts) other than a bare null.")
     ctx.assumptions += [
         "options fixed to keep nulls and times: ojg.Options{OmitNil:false, TimeFormat:\"time\"}",
         "integer widths normalise to int64/gen.Int, float32 to float64; alt.Decompose/Dup/Alter may return the nicer float64 that rounds to the same float32",
